@@ -220,7 +220,11 @@ class RegPolicy:
 
     def default_algs(self):
         import inspect, webauthn
-        return [int(a) for a in inspect.signature(webauthn.verify_registration_response).parameters["supported_pub_key_algs"].default]
+        d = inspect.signature(webauthn.verify_registration_response).parameters["supported_pub_key_algs"].default
+        if not isinstance(d, (list, tuple)):
+            # no inspectable default: the model is then given what option generation offers by default (C15 ties the two together)
+            d = [p.alg for p in webauthn.generate_registration_options(rp_id="a", rp_name="b", user_name="c").pub_key_cred_params]
+        return [int(a) for a in d]
 
     def wire(self):
         o = ("S " + fw.ws(self.origin)) if isinstance(self.origin, str) else ("M " + wlist(fw.ws, list(self.origin)))
